@@ -1580,3 +1580,117 @@ eng_harness_vec!(c01_rename_cross_ba, 5, {
     std::mem::forget(r);
     std::mem::forget(e);
 });
+
+/// SINTER / SUNION of a = {x, y} and b = {z} (symbolic; z may equal x or y), plus a missing key.
+fn op_set_algebra(which: u8) {
+    let e = mk_engine1();
+    let c: [u8; 3] = kani::any();
+    kani::assume(c[0] != c[1]);
+    let mut h = HashSet::new();
+    h.insert(vec![c[0]]);
+    h.insert(vec![c[1]]);
+    put_raw(&e, 0, KA, Value::Set(h), None);
+    let mut h2 = HashSet::new();
+    h2.insert(vec![c[2]]);
+    put_raw(&e, 0, KB, Value::Set(h2), None);
+    let in_a = c[2] == c[0] || c[2] == c[1];
+    kani::cover!(in_a, "second set shares a member with the first");
+    match which {
+        0 => {
+            // SINTER a b
+            let keys: [&[u8]; 2] = [KA, KB];
+            let r = std::mem::ManuallyDrop::new(e.sinter(0, &keys));
+            match &*r {
+                Ok(v) => {
+                    assert!(v.len() == in_a as usize, "SINTER: number of common members");
+                    if in_a {
+                        assert!(v[0].len() == 1 && v[0][0] == c[2], "SINTER member");
+                    }
+                }
+                Err(_) => assert!(false, "SINTER failed"),
+            }
+        }
+        1 => {
+            // SINTER a missing b  => empty
+            let keys: [&[u8]; 3] = [KA, KQ, KB];
+            let r = std::mem::ManuallyDrop::new(e.sinter(0, &keys));
+            assert!(matches!(&*r, Ok(v) if v.is_empty()), "SINTER with a missing key is empty");
+        }
+        _ => {
+            // SUNION a missing b
+            let keys: [&[u8]; 3] = [KA, KQ, KB];
+            let r = std::mem::ManuallyDrop::new(e.sunion(0, &keys));
+            match &*r {
+                Ok(v) => {
+                    assert!(v.len() == if in_a { 2 } else { 3 }, "SUNION: members are unique, a missing key is an empty set");
+                    let mut seen = [false; 3];
+                    let mut i = 0;
+                    while i < v.len() {
+                        assert!(v[i].len() == 1, "SUNION member");
+                        if v[i][0] == c[0] { seen[0] = true; }
+                        if v[i][0] == c[1] { seen[1] = true; }
+                        if v[i][0] == c[2] { seen[2] = true; }
+                        i += 1;
+                    }
+                    assert!(seen[0] && seen[1] && seen[2], "SUNION contains every member of every set");
+                }
+                Err(_) => assert!(false, "SUNION failed"),
+            }
+        }
+    }
+    std::mem::forget(e);
+}
+eng_harness_vec!(c03_sinter_two, 6, { op_set_algebra(0); });
+eng_harness_vec!(c03_sinter_missing, 6, { op_set_algebra(1); });
+eng_harness_vec!(c03_sunion_missing, 6, { op_set_algebra(2); });
+
+// ---------------------------------------------------------------- C19 / C01: the engine's glob (MATCH, KEYS)
+// pattern_matches(&str, &str) of engine.rs against the Redis stringmatchlen recurrence (evaluated
+// bottom-up over a table), for ASCII patterns without '[' and '\' (classes and escapes are
+// compared for the pub/sub matcher under C14; here the star/question-mark/literal core).
+fn ref_glob_core<const P: usize, const T: usize>(p: &[u8; P], t: &[u8; T]) -> bool {
+    let mut m = [[false; 5]; 6];
+    let mut i = P + 1;
+    while i > 0 {
+        i -= 1;
+        let mut j = T + 1;
+        while j > 0 {
+            j -= 1;
+            m[i][j] = if i == P {
+                j == T
+            } else if p[i] == b'*' {
+                m[i + 1][j] || (j < T && m[i][j + 1])
+            } else if j == T {
+                false
+            } else if p[i] == b'?' {
+                m[i + 1][j + 1]
+            } else {
+                p[i] == t[j] && m[i + 1][j + 1]
+            };
+        }
+    }
+    m[0][0]
+}
+fn engine_glob_case<const P: usize, const T: usize>() {
+    let p: [u8; P] = kani::any();
+    let t: [u8; T] = kani::any();
+    let mut i = 0;
+    while i < P {
+        kani::assume(p[i] < 128 && p[i] != b'[' && p[i] != b'\\');
+        i += 1;
+    }
+    let mut j = 0;
+    while j < T {
+        kani::assume(t[j] < 128);
+        j += 1;
+    }
+    let ps = unsafe { std::str::from_utf8_unchecked(&p) };
+    let ts = unsafe { std::str::from_utf8_unchecked(&t) };
+    let got = pattern_matches(ps, ts);
+    let want = ref_glob_core(&p, &t);
+    kani::cover!(got && P >= 2 && p[0] == b'*', "match through a leading star");
+    assert!(got == want, "engine pattern_matches differs from the reference glob matcher (Redis stringmatchlen)");
+}
+eng_harness_vec!(c19_glob_p3_t3, 14, { engine_glob_case::<3, 3>(); });
+eng_harness_vec!(c19_glob_p3_t4, 18, { engine_glob_case::<3, 4>(); });
+eng_harness_vec!(c19_glob_p2_t3, 12, { engine_glob_case::<2, 3>(); });
